@@ -37,7 +37,7 @@ sec='''## 10. As built
 
 ### 10.1 Inventory
 
-* `spec/` - 67 TLA+ modules, about 4,400 lines: the normative modules `Cues`, `Ops` (+ implementation layer `OpsImpl`), `Linear` (+`BigInt`),
+* `spec/` - @@NMOD@@ TLA+ modules, about @@NLINES@@ lines: the normative modules `Cues`, `Ops` (+ implementation layer `OpsImpl`), `Linear` (+`BigInt`),
   `TimeCodec`, `Scanner`, the five codec modules with their tables (`SrtCodec`, `VttCodec`, `SsaCodec`,
   `TtmlCodec`, `StlCodec` + `StlTables`), `Teletext` + `TeletextTables`, `Writers`, `Conc`, `Totality`,
   `Session`, `StyleProp`; a bounded model per family (`OpsMC`, `OpsImplMC`, `MC_BigInt`, `MC_Linear`, `MC_TimeCodec`, `ScannerMC`,
@@ -45,13 +45,14 @@ sec='''## 10. As built
   and tier; a case generator per family (`Gen*.tla`: TLC writes ndjson through `ndJsonSerialize`, partitioned by
   `GEN_PART/GEN_PARTS`); a trace specification per family (`Trace*.tla`, 16 of them).
 * `harness/` - Go module (`cmd/drive` with 18 sub-commands, `internal/*` builders, lexers, projections; about
-  9,500 lines), built from `/repo`'s working tree with `-tags verif` through a scratch `-modfile` on every run.
+  @@GOLINES@@ lines), built from `/repo`'s working tree with `-tags verif` through a scratch `-modfile` on every run.
 * `check`, `checks.py`, `vlib.py` - orchestration: `./check <ID> [--tier quick|thorough] [--replay file]`,
   `./check selftest`. `mkmanifest.py` regenerates `MANIFEST.json`; `known_findings.json`; `seedtool.sh` and
   `seeded/` (seeded changes); `tools/` (table generators for `StlTables` / `TeletextTables`).
 
-All 20 properties have a check; `not_applicable` is empty. Quick tiers take 4-46 s each (about 6 minutes for
-all), and every quick check was run on the unchanged tree with several `VERIF_SEED` values.
+All 20 properties have a check; `not_applicable` is empty. Quick tiers take 5-130 s each (about 12 minutes for
+all twenty, measured on the idle 16-core sandbox), and every quick check was run on the unchanged tree with several
+`VERIF_SEED` values.
 
 ### 10.2 Deviations from the plan in sections 0-8
 
@@ -145,6 +146,18 @@ the same sites).
 | property | commit | what failed |
 |---|---|---|
 %s
+
+**Repairs of repairs.** Five of the later commits correct earlier `fix:` commits of this work, and they are listed
+as what they are: `3878c0f` (STL writer defaults) was wider than the defect required and replaced blank GSI fields
+(narrowed by `e15f046`); `7b014d6` added an unaligned programme start (completed by `b0f63af`); `be3a749` (teletext input
+wrapper) spun on an input failing with `io.ErrUnexpectedEOF` (`0ebbb2c`), behind which a pre-existing swallowed fault
+appeared (`08027ad`); `0f38ecf` / `637290a` left duplicate Style lines and a nil-entry panic in `WriteToSSA` (`b94162c`),
+and `b94162c` / `94daab7` in turn left an empty styles block and block-like lines inside comments (`91b8933`). None of
+these was found by the checks as they stood: they were found by sub-agents reading the code (a seed writer's remark, two
+independent reviews of all `fix:` commits with a failing test per suspicion), after which the generators were widened
+until the check reported the defect on the then-current tree, and only then was the code changed. The lesson recorded
+here is about the technique: a bounded enumeration proves nothing about the values it does not hold (an error *value*,
+a blank field, an unaligned duration), so every repair deserves a reviewer who reads the diff.
 
 Three `verif:` commits add the guarded hooks (`ff470a3`: `verif_on.go` / `verif_off.go` with the scanner and
 block-reader wrappers, the table fingerprint and the event hook variable; `c2660e5`: one-line `verifEmit` calls in
@@ -251,6 +264,11 @@ corrupted events, all rejected (`selftest_result.json`, 6 minutes).
 ---------------------------------------------------------------------------------------------------
 
 ''' % (fixed, seeds, benign, perprop)
+import glob as _g2
+_tla=_g2.glob('/verif/spec/*.tla')
+_nl=sum(len(open(f).read().splitlines()) for f in _tla)
+_go=sum(len(open(f).read().splitlines()) for f in _g2.glob('/verif/harness/cmd/drive/*.go')+_g2.glob('/verif/harness/internal/*/*.go'))
+sec=sec.replace('@@NMOD@@',str(len(_tla))).replace('@@NLINES@@','{:,}'.format(round(_nl,-2))).replace('@@GOLINES@@','{:,}'.format(round(_go,-2)))
 s=s.replace('## Appendix A', sec+'## Appendix A',1)
 open(p,'w').write(s)
 print(len(rows))
